@@ -1218,7 +1218,9 @@ impl ObjFiber {
             self.open_upvalues = {
                 let mut borrowed_upvalue = upvalue.borrow_mut();
                 borrowed_upvalue.close();
-                borrowed_upvalue.next
+                // A closed variable has left the list of open ones: keeping the link would keep
+                // every variable captured below it (and whatever those hold) alive.
+                borrowed_upvalue.next.take()
             };
         }
     }
